@@ -27,24 +27,17 @@ Definition ex_S : list sect :=
           mkxent 6 0 (XInStream 10 0); mkxent 7 0 (XInStream 10 1); mkxent 9 0 (XInUse 160);
           mkxent 10 0 (XInUse 50); mkxent 11 0 (XInUse 180)], Some (ORef 1 0))].
 
-Definition ex_c0 : ctx := [((11, 0), VXStm)].
-
 Lemma ex_hyps :
   exists c, load ex_pdf = Loaded c (1, 0) /\
-            forall id, ctx_get c id = match resolve (p_file ex_pdf) (all_ents ex_S) id with Some v => Some v | None => ctx_get ex_c0 id end.
+            forall id, ctx_get c id = resolve (p_file ex_pdf) (all_ents ex_S) id.
 Proof.
-  apply (load_history ex_pdf ex_S ex_c0 1 0 400); try reflexivity.
+  apply (load_history ex_pdf ex_S 1 0 400); try reflexivity.
   - (* sections *)
-    eapply SS_cons; [reflexivity | eapply SA_table; reflexivity |].
-    eapply SS_last; [reflexivity|]. change ex_c0 with (ctx_set [] (11, 0) VXStm). eapply SA_stream; reflexivity.
+    eapply SS_cons; [reflexivity | eapply SA_table; reflexivity |]. eapply SS_last; [reflexivity|]. eapply SA_stream; reflexivity.
   - repeat constructor; cbn; intuition discriminate.
-  - (* (2) *)
-    intros id H. destruct (oid_dec id (11, 0)) as [->|Ne].
-    + right. exists (mkxent 11 0 (XInUse 180)), 180, 277. eexists. eexists. eexists. repeat split; reflexivity.
-    + exfalso. apply H. cbn [ex_c0 ctx_get]. destruct (oid_eqb (11, 0) id) eqn:E; [apply oid_eqb_eq in E; congruence | reflexivity].
   - (* (3) *)
-    intros e ofs Hin St G. vm_compute in Hin.
-    repeat (destruct Hin as [<-|Hin]); try (destruct Hin); cbn in St; try discriminate; inversion St; subst ofs; cbn in G; try discriminate.
+    intros e ofs Hin St. vm_compute in Hin.
+    repeat (destruct Hin as [<-|Hin]); try (destruct Hin); cbn in St; try discriminate; inversion St; subst ofs.
     all: split; [reflexivity|]; eexists; eexists; eexists; (split; [reflexivity|]); (split; [reflexivity|]).
     all: try (left; exact Logic.I).
     right. exists (9, 0), 3. split; [split; reflexivity|]. exists 160, 170. split; [vm_compute; tauto|]. split; reflexivity.
@@ -89,17 +82,13 @@ Ltac split_eqb_in H :=
          | context [N.eqb ?k ?x] => is_var x; let E := fresh "E" in destruct (N.eqb k x) eqn:E; [apply N.eqb_eq in E; subst x|]
          end.
 
-Lemma hy_layout : layout_of hy_doc (1, 0) hy_pdf hy_E [((11, 0), VXStm)].
+Lemma hy_layout : layout_of hy_doc (1, 0) hy_pdf hy_E.
 Proof.
   constructor.
   - reflexivity.
-  - exists 200. split; [reflexivity|]. split; [reflexivity|].
-    change [((11, 0), VXStm)] with (ctx_set [] (11, 0) VXStm). eapply SA_hybrid; reflexivity.
-  - intros id H. destruct (oid_dec id (11, 0)) as [->|Ne].
-    + right. exists (mkxent 11 0 (XInUse 120)), 120, 200. eexists. eexists. eexists. repeat split; reflexivity.
-    + exfalso. apply H. cbn [ctx_get]. destruct (oid_eqb (11, 0) id) eqn:E; [apply oid_eqb_eq in E; congruence | reflexivity].
-  - intros e ofs Hin St G. vm_compute in Hin.
-    repeat (destruct Hin as [<-|Hin]); try (destruct Hin); cbn in St; try discriminate; inversion St; subst ofs; cbn in G; try discriminate.
+  - exists 200. split; [reflexivity|]. split; [reflexivity|]. eapply SA_hybrid; reflexivity.
+  - intros e ofs Hin St. vm_compute in Hin.
+    repeat (destruct Hin as [<-|Hin]); try (destruct Hin); cbn in St; try discriminate; inversion St; subst ofs.
     all: split; [reflexivity|]; eexists; eexists; eexists; (split; [reflexivity|]); (split; [reflexivity|]); left; exact Logic.I.
   - intros e stm idx ms n v Hin St C Hm. vm_compute in Hin.
     repeat (destruct Hin as [<-|Hin]); try (destruct Hin); cbn in St; try discriminate; inversion St; subst stm idx.
@@ -118,6 +107,6 @@ Qed.
 
 Example hy_loaded : exists c, load hy_pdf = Loaded c (1, 0) /\ ctx_get c (6, 0) = Some (VObj (OStr (B "a"))) /\ ctx_get c (2, 0) = Some (VObj (OInt 7)).
 Proof.
-  destruct (load_document _ _ _ _ _ hy_layout) as (c & L & K & _). exists c. split; [exact L|].
+  destruct (load_document _ _ _ _ hy_layout) as (c & L & K & _). exists c. split; [exact L|].
   split; apply K; cbn; tauto.
 Qed.
